@@ -498,6 +498,11 @@ class Response:
         if self._cookies is None:
             self._cookies = http_cookies.SimpleCookie()
 
+        # NOTE: SimpleCookie reuses an existing morsel of the same name, and
+        #   with it the attributes of an earlier call; start afresh, so that
+        #   the cookie carries exactly what this call asks for.
+        self._cookies.pop(name, None)
+
         try:
             self._cookies[name] = value
         except http_cookies.CookieError as e:  # pragma: no cover
@@ -626,6 +631,11 @@ class Response:
             self._cookies = http_cookies.SimpleCookie()
 
         self._cookies[name] = ''
+
+        # NOTE: a Max-Age left by an earlier set_cookie() for the same name
+        #   would take precedence over the expiry set below (RFC 6265,
+        #   Section 5.3), and the cookie would not be removed.
+        self._cookies[name]['max-age'] = ''
 
         # NOTE(Freezerburn): SimpleCookie apparently special cases the
         # expires attribute to automatically use strftime and set the
